@@ -217,6 +217,44 @@ func checkC01(cx *Ctx, r *Report) {
 		}
 		resp := c.Common().Args[3]
 		okS := false
+		// one send for both outcomes: the variable holds the result of loginResponse where its error was found nil
+		// and a freshly built failed response where it was not
+		if phi, isPhi := resp.(*ssa.Phi); isPhi {
+			okAll := len(phi.Edges) > 0
+			for j, ev := range phi.Edges {
+				if j >= len(phi.Block().Preds) {
+					okAll = false
+					break
+				}
+				pred := phi.Block().Preds[j]
+				switch x := ev.(type) {
+				case *ssa.Call:
+					mf := calleeOf(x)
+					if mf == nil || (w.FuncKey(mf) != "provider.(*Response).makeFailedResponse" && w.FuncKey(mf) != "provider.(*IdentityProvider).errorResponse") {
+						okAll = false
+					}
+				case *ssa.Extract:
+					lc, isCall := x.Tuple.(*ssa.Call)
+					okEdge := false
+					if isCall && x.Index == 0 && calleeOf(lc) == lr {
+						if e, has, _ := errResult(lc); has && e != nil {
+							pe := fx.path(e)
+							for _, a := range fx.AtomsOnEdge(pred, phi.Block()) {
+								if a.Op == "NIL" && !a.Neg && a.A == pe {
+									okEdge = true
+								}
+							}
+						}
+					}
+					if !okEdge {
+						okAll = false
+					}
+				default:
+					okAll = false
+				}
+			}
+			okS = okAll
+		}
 		if ex, isEx := resp.(*ssa.Extract); isEx && ex.Index == 0 {
 			if lc, isCall := ex.Tuple.(*ssa.Call); isCall && calleeOf(lc) == lr {
 				if e, has, _ := errResult(lc); has && e != nil {
